@@ -437,10 +437,25 @@ def bulk_streams(c, quick):
         return
     pubkey = json.load(open(pubfile))
     srv = Server(keyfile)
-    if not srv.start():
-        c.assumptions.append("bulk streams over HTTP NOT run: " + getattr(srv, "err", "server did not start") +
-                             "; falling back to the hidden `gobl bulk` command on stdin/stdout")
+    if os.environ.get("C15_NO_HTTP") == "1":
+        srv.err = "C15_NO_HTTP=1 (forced)"
+    if os.environ.get("C15_NO_HTTP") == "1" or not srv.start():
+        why = getattr(srv, "err", "server did not start")
         srv = None
+        # fall back to a `gobl bulk` command on stdin/stdout if cmd/gobl registers one
+        p = subprocess.run([os.path.join(BIN, "gobl"), "bulk"], input=b'{"action":"ping","req_id":"probe"}\n',
+                           stdout=subprocess.PIPE, stderr=subprocess.PIPE, timeout=60)
+        try:
+            probe = parse_stream(p.stdout.decode("utf-8", "replace"))
+        except ValueError:
+            probe = []
+        if not (len(probe) == 2 and probe[-1].get("is_final")):
+            c.assumptions.append("bulk streams NOT run: " + why + "; and cmd/gobl registers no `bulk` command to fall back to "
+                                 "(cmd/gobl/bulk.go defines bulkOpts.runE but root.go does not add it)")
+            c.cov["bulk"] = {"streams": 0, "transport": "none"}
+            sh("rm -rf " + tmp)
+            return
+        c.assumptions.append("bulk streams over HTTP NOT run: " + why + "; falling back to `gobl bulk` on stdin/stdout")
     try:
         _bulk_streams(c, quick, srv, keyfile, pubfile, pubkey, tmp)
     finally:
